@@ -161,6 +161,15 @@ func registerIntrinsics(e *Engine) {
 			panic(ex.unsupported(name + " with symbolic argument"))
 		})
 	}
+	reg("bytes.IndexByte", func(ex *Exec, fn *ssa.Function, a []Value) Value {
+		s, _ := a[0].(Slice)
+		for i, b := range s {
+			if ex.branch(ex.byteEq(b, a[1])) {
+				return int64(i)
+			}
+		}
+		return int64(-1)
+	})
 	// ---- fmt ---------------------------------------------------------------
 	reg("fmt.Sprintf", func(ex *Exec, fn *ssa.Function, a []Value) Value {
 		return ex.sprintf(a[0], a[1])
